@@ -205,7 +205,7 @@ func Main[S any](t *testing.T, p Prop[S]) {
 		if curFile != "" {
 			// written before the run: if the code under test hangs or kills the
 			// process, the driver still has the scenario that did it
-			b, _ := json.Marshal(map[string]any{"property": p.ID, "class": "crash-or-hang", "detail": "the process died or stopped responding while running this scenario", "scenario": sc})
+			b, _ := json.Marshal(map[string]any{"property": p.ID, "test": t.Name(), "class": "crash-or-hang", "detail": "the process died or stopped responding while running this scenario", "scenario": sc})
 			_ = os.WriteFile(curFile, b, 0o644)
 		}
 		out := p.Run(t, sc, false)
@@ -261,7 +261,7 @@ func Main[S any](t *testing.T, p Prop[S]) {
 			rep.Violation = v
 			rep.FailTrace = fmt.Sprintf("%016x", out.Sched.Trace)
 			if failFile != "" {
-				b, _ := json.MarshalIndent(map[string]any{"property": p.ID, "class": v.Class, "detail": v.Detail, "scenario": sc}, "", " ")
+				b, _ := json.MarshalIndent(map[string]any{"property": p.ID, "test": t.Name(), "class": v.Class, "detail": v.Detail, "scenario": sc}, "", " ")
 				_ = os.WriteFile(failFile, b, 0o644)
 				rep.FailFile = failFile
 			}
